@@ -90,7 +90,7 @@ theorem refutation_exceeds_suspicion (k own : Nat) (h1 : own ≤ k) (h2 : max k 
 /-- Without a usable renewed identity (`renew` gives nothing, the same identity, or a loser of the
     conflict) the instance does not rejoin — and nothing changes in the attempt. -/
 theorem no_rejoin_without_winning_identity (E : Env) (c : Ctx)
-    (h : ∀ n, renew c.s.policy c.s.id = some n → (n = c.s.id ∨ n.wins c.s.id = false)) :
+    (h : ∀ n, renew c.s.policy c.s.id = some n → (n = c.s.id ∨ renewWins c.s.policy n c.s.id = false)) :
     attemptRejoin E c = .ok false c := by
   unfold attemptRejoin
   simp only [bind_run, getS_run]
@@ -105,7 +105,7 @@ theorem no_rejoin_without_winning_identity (E : Env) (c : Ctx)
 
 /-- … in which case learning that its own identity is Down makes it Defunct (Undead), never active. -/
 theorem down_without_renewal_is_defunct (E : Env) (c : Ctx)
-    (h : ∀ n, renew c.s.policy c.s.id = some n → (n = c.s.id ∨ n.wins c.s.id = false)) :
+    (h : ∀ n, renew c.s.policy c.s.id = some n → (n = c.s.id ∨ renewWins c.s.policy n c.s.id = false)) :
     ∃ c', handleSelfUpdate E 0 .down c = .ok () c' ∧ c'.s.conn = .undead ∧ c'.s.id = c.s.id ∧
       c'.eff = c.eff ++ [.notify .defunct] := by
   unfold handleSelfUpdate
